@@ -76,6 +76,7 @@ PROPS = {
     'C11': dict(
         level='proof',
         verus_units=['broker_channel', 'broker_service', 'broker_conn_state', 'broker_object', 'broker_serial_map', 'broker_bus_listener',
+                     'broker_introspection',
                      'broker_handlers_channel', 'broker_handlers_registry', 'broker_handlers_subs', 'broker_handlers_routing',
                      'broker_handlers_bus_listener', 'broker_handlers_shutdown'],
         trusted_base=TB_VERUS + TB_REGISTRY + TB_CONN + [
@@ -93,6 +94,12 @@ PROPS = {
             'feature (register_introspection, query_introspection, query_introspection_reply, remove_introspection_conn: they rest '
             'on invariants of broker/src/introspection.rs that are not modelled); the variants without the feature are verified',
             'query_service_info expects SerializedValue::serialize(ServiceInfo) to succeed: ASSUMED',
+            'introspection database (unit broker_introspection): IntrospectionEntry (all 10 functions) and IntrospectionDatabase::{new, '
+            'len, register, get_mut} are verified: the index structure conn_id_idxs <-> conn_ids stays a bijection with at least one '
+            'registered connection, so swap_remove, slice indexing, expect("inconsistent state") and the random choice over a '
+            'non-empty range cannot panic; IntrospectionDatabase::{remove_conn, query_replied} (a retain closure with side effects; '
+            'an enum holding &mut) are outside Verus. Vec::retain is assumed with a deliberately weak contract, the random source is '
+            'assumed to return a value inside its (proved non-empty) range, #[derive(Default)] of the entry is assumed',
             'hangs: termination of the loops is proved for the for-loops over finite collections (Verus decreases on the '
             'iterator); the broker loop itself (async) is not',
         ],
